@@ -57,7 +57,7 @@ func serveWhole(t *testing.T, root, wirePath string) (data []byte, size int64, w
 func TestC20(t *testing.T) {
 	r := NewReporter(t)
 	defer r.Done()
-	r.Rule("make-iso on every tree with <= N nodes in both modes and on size families: output file = library image = served image (variable fields masked), also to stdout; decrypt redump / 3k3y on images over region tables x keys (and images that do not end on a sector boundary): output = reference plaintext (region table cleared; 3k3y area zeroed), to a file and to '-', and served back unchanged from PS3ISO and elsewhere; existing targets {file, directory, symlink to file} x 3 commands keep hash/size/mtime and the tool exits non-zero; output '-' with standard output being an existing file (append / positioned at end) x 3 commands x {succeeding, failing} run keeps the existing bytes in front; distinct by case description")
+	r.Rule("make-iso on every tree with <= N nodes in both modes and on size families: output file = library image = served image (variable fields masked), also to stdout, and to a slowly read pipe while member files are appended to; decrypt redump / 3k3y on images over region tables x keys (and images that do not end on a sector boundary): output = reference plaintext (region table cleared; 3k3y area zeroed), to a file and to '-', and served back unchanged from PS3ISO and elsewhere; existing targets {file, directory, symlink to file} x 3 commands keep hash/size/mtime and the tool exits non-zero; output '-' with standard output being an existing file (append / positioned at end) x 3 commands x {succeeding, failing} run keeps the existing bytes in front; distinct by case description")
 	base := filepath.Join(scratchBase(), sprintf("verifh-c20-%d", os.Getpid()))
 	defer os.RemoveAll(base)
 	env := cleanEnv(base)
@@ -181,6 +181,79 @@ func TestC20(t *testing.T) {
 			mkFileAbs(filepath.Join(dir, "a.bin"), sz, 5, baseTime)
 			mkFileAbs(filepath.Join(dir, "sub", "b.bin"), 1, 6, baseTime)
 		})
+	}
+	// a member file that is appended to while make-iso is writing (its output goes to a pipe that is read slowly, so the
+	// tool is held inside the first member when the others grow): the image is that of the tree as it was scanned -
+	// what the server serves in the same situation - or the tool gives up with a non-zero exit
+	for _, ps3 := range []bool{false, true} {
+		idx++
+		if !r.Mine(idx) || r.TimeUp() {
+			continue
+		}
+		os.RemoveAll(base)
+		root := filepath.Join(base, "root")
+		dir := filepath.Join(root, "T")
+		must(os.MkdirAll(dir, 0o755))
+		members := []string{"A.BIN", "sub/B.BIN", "sub/C.BIN", "Z.BIN"}
+		for i, m := range members {
+			mkFileAbs(filepath.Join(dir, m), []int64{1 << 20, 1 << 20, 3000, 2048}[i], byte(70+i), baseTime)
+		}
+		if ps3 {
+			writeFileAbs(filepath.Join(dir, "PS3_GAME", "PARAM.SFO"), mkSFO([]sfoKV{{"TITLE_ID", "BLES01234"}}), baseTime)
+		}
+		key := sprintf("make-iso to a pipe while members grow ps3=%v", ps3)
+		r.State(key)
+		r.Nontrivial(key)
+		r.Eval(1)
+		rep := map[string]any{"case": key}
+		v, err := openVISO(root, "/T", ps3)
+		if err != nil {
+			viol("lib-image-failed", key+": "+err.Error(), rep)
+			continue
+		}
+		st, _ := v.Stat()
+		lib, err := canonicalImage(v, 1<<20, st.Size()+1<<20)
+		v.Close()
+		if err != nil {
+			viol("lib-image-failed", key+": "+err.Error(), rep)
+			continue
+		}
+		args := []string{"make-iso"}
+		if ps3 {
+			args = append(args, "--ps3-mode")
+		}
+		cmd := exec.Command(binPath(), append(args, dir, "-")...)
+		cmd.Env, cmd.Dir = env, base
+		pr, pw, err := os.Pipe()
+		must(err)
+		cmd.Stdout = pw
+		var eb strings.Builder
+		cmd.Stderr = &eb
+		must(cmd.Start())
+		pw.Close()
+		got := make([]byte, 65536)
+		n, _ := io.ReadFull(pr, got)
+		got = got[:n]
+		for _, m := range members {
+			f, err := os.OpenFile(filepath.Join(dir, m), os.O_WRONLY|os.O_APPEND, 0)
+			must(err)
+			f.Write(bytes.Repeat([]byte("X"), 5000))
+			f.Close()
+		}
+		rest, _ := io.ReadAll(pr)
+		pr.Close()
+		werr := cmd.Wait()
+		r.Transition(1)
+		got = append(got, rest...)
+		if werr != nil {
+			r.Outcome("make-iso-growing-member-refused")
+			continue
+		}
+		if d := maskedEqual(got, lib, isoVarMask(ps3)); d != "" {
+			viol("make-iso-growing-member", sprintf("%s: exit 0, but the output is not the image of the tree as scanned (first 64 KiB taken, then 5000 bytes appended to every member): %s | %s", key, d, lastLines(eb.String(), 2)), rep)
+			continue
+		}
+		r.Outcome("make-iso-growing-member-ok")
 	}
 	// ---------- (2) decrypt ----------
 	type dcase struct {
